@@ -5,7 +5,7 @@ CONSTANTS
   ExtraLoads <- Extra
   SkipForms <- DynSkips
   Templates <- Tpl
-  MaxStmts = 3
+  MaxStmts = 4
 INVARIANT C19_ExactObject
 INVARIANT C19_SameConfigurable
 INVARIANT C19_Errors
